@@ -198,6 +198,11 @@ def _fuzz(name, srcs, prop, secs, jobs, agg, max_len=2048, extra=None, timeout_s
         stats['corpus_units'] += len(units)
         for u in units:
             agg.nontrivial.add('fz:' + name + ':' + u)
+        # a few corpus units as samples of what the campaign explored (largest first: they are the structured ones)
+        if len([x for x in agg.samples if isinstance(x, dict) and x.get('target') == name]) < 2:
+            for u in sorted(units, key=lambda f: -os.path.getsize(os.path.join(cd, f)))[:1]:
+                data = open(os.path.join(cd, u), 'rb').read()[:400]
+                agg.samples.append({'target': name, 'corpus_unit': u, 'bytes': len(data), 'input_text': data.decode('latin-1').encode('unicode_escape').decode('ascii')[:600]})
         if os.path.exists(sf):
             try:
                 for k, v in json.load(open(sf)).items():
